@@ -203,13 +203,13 @@ def tail(path, n=25):
 
 def coverage_zero_actions(out_path, module_names):
     """Names of top-level actions reported by -coverage with count 0 (vacuity control)."""
-    zero = []
+    last = {}      # TLC prints interim coverage reports during long runs: the last report counts
     rx = re.compile(r"^<(\w+) line \d+, col \d+ to line \d+, col \d+ of module (\w+)>: (\d+):(\d+)")
     for line in open(out_path):
         m = rx.match(line)
-        if m and m.group(2) in module_names and int(m.group(4)) == 0:
-            zero.append(m.group(1))
-    return sorted(set(zero))
+        if m and m.group(2) in module_names:
+            last[m.group(1)] = int(m.group(4))
+    return sorted(k for k, v in last.items() if v == 0)
 
 
 def extract_prints(out_path, tagname):
